@@ -21,6 +21,16 @@ package main
 //      recorded handler arguments on the request server), and bytes that follow the last field of a request
 //      inside its frame mean nothing (the stream re-encoded without them gets the same replies and leaves
 //      the same files / handler log).
+// Transport dimension (ssMut.Tr, ssStartTr): every mutated stream meets the server either through one connection
+// object whose Close ends both directions (net.Pipe-like: a server that hangs up cannot read on) or through two
+// independent pipes — struct{io.Reader; io.WriteCloser}, the stdin / stdout of an sftp subsystem — where the
+// server's Close ends its OUTPUT only and everything the peer sent behind a malformed packet stays readable;
+// pipelined cases also with a bytes.Reader over the whole stream as input and a separate sink as output.  Oracle 3
+// is the same on all of them and does not rely on the connection dying: the served tree / handler call log after
+// Serve returned is the reference run's just before the malformed packet.  When it is not, the stream cut right
+// behind the malformed packet is run as well, which tells "the malformed packet was acted upon"
+// (<kind>/state-changed-by-malformed/…) from "the server kept executing what followed it"
+// (<kind>/requests-behind-malformed-executed/…).
 // Option dimensions (c07OptionConfigs): ReadOnly() on the os-backed server — the reference run and every
 // mutation of it go through the denial path: a modifying request (also one a mutation produced) is
 // answered PERMISSION_DENIED and the tree ends exactly as it began (os/readonly-not-denied/<kind>,
@@ -208,7 +218,7 @@ func checkC07(c *lib.Ctx) {
 	r := c.R
 	thorough := c.Tier == "thorough"
 	ssThoroughRun = thorough || c.Replay != ""
-	r.Rule = "sessions: INIT + PRNG mix of 24 request kinds (OPEN r/w/rw, READ, WRITE, FSTAT, FSETSTAT, CLOSE, OPENDIR, READDIR, STAT, LSTAT, MKDIR, RMDIR, REMOVE, RENAME, SYMLINK, READLINK, REALPATH, SETSTAT, statvfs/posix-rename/hardlink/unknown extended), incl. failing opens, never-issued handles and (one flavour) handles of the wrong kind; recorded interactively against os-backed Server (absolute paths / working directory + relative paths) and RequestServer with counting in-memory handlers, allocator on and off; option dimensions — os-backed: ReadOnly() (every modifying request, also one made by a mutation, must be refused with PERMISSION_DENIED and the tree stay as it was) x WithDebug x {absolute, working directory, working directory <tree>/home/u + relative paths} x allocator; request server: {default, WithStartDirectory(\"/\") + relative, WithStartDirectory(\"/home/u\") + absolute, + relative paths} x allocator x {all optional interfaces, handler objects without Close / TransferError, handlers without OpenFileWriter / LstatFileLister / PosixRenameFileCmder / StatVFSFileCmder, neither}; quick: four members of that product (rotating with the seed) on the field session and every third generated session, thorough: the whole product (24 os + 32 rs members) on rotating shares of the sessions, mutated with the sampled density; ReadOnly() configurations also record a \"read-only\" session (every modifying request kind, OPEN with the combinations of write / create / truncate / append / excl / read) and get ALL boundary values for every OPEN's pflags; reference runs of one session on configurations that differ only in path style / start directory / allocator / debug writer are compared reply by reply (type and status code). Mutations of the recorded stream, one per case: cut at byte k then EOF (quick: every frame boundary, boundary+-1 and PRNG offsets; thorough: every k), every frame's length field := 0,1,n-1,n+1,2^31-1,2^32-1, every frame's type byte := sample incl. 0,2,21,99,101-105,199,201,255 and other valid types (thorough: all 0..255), every string-length field (the data length of a WRITE included) := 0,n-1,n+1,n+1000,2^32-1 and, for the last string of a frame (thorough: every string), n/2 — the bytes left where they are —, every frame's length field also := n+(length of the next packet) so that the frame swallows the whole next packet (thorough: also n+4 and the next two packets), 1 and 5 (thorough: 1,3,4,5,8,64,4096) bytes appended INSIDE every frame, whole-field mutations (every integer field the judge finds in a request: frame length, id, version, string lengths, READ/WRITE offset and length, pflags, attribute flags, size, uid, gid, permissions, times, extended count := 0,1,2^31-1,2^31,2^32-16..2^32-1 and for 64-bit fields also 2^32,2^63-1,2^63,2^64-16..2^64-1; string lengths 0/1 also with the string cut to fit and attribute flags also with the block zero-padded to fit, so that the request is dispatched with the extreme value; quick: PRNG choice of 1 value per field (3 in the dedicated session that exercises read/write/read-write/directory handles and full attribute blocks), but ALL values for the offsets and lengths of that session's READs and WRITEs; thorough: all values), garbage appended, crafted raw frames (F3/short-attribute witnesses), and the same for path-only sessions sent pipelined. EFFECT oracles besides the reply oracles: around every WRITE, SETSTAT and FSETSTAT of every run (reference runs too) the file behind the handle / at the path is looked at before and after (os-backed: an OK'd WRITE leaves the old content with exactly `length` bytes — the bytes of the data string — at `offset`; an OK'd SETSTAT / FSETSTAT changed exactly the attributes its flags select, to the block's values) resp. the arguments the handler object / the Setstat handler recorded are compared with the request's fields (request server); and whenever a dispatched frame carries bytes after the last field of its request, the whole stream is run a second time with every request re-encoded without such bytes: same replies, same final tree / handler log. Each case runs on a fresh server in a child process; a case is non-trivial when the stream differs from the reference stream; distinct by (server config, session, mutation)"
+	r.Rule = "sessions: INIT + PRNG mix of 24 request kinds (OPEN r/w/rw, READ, WRITE, FSTAT, FSETSTAT, CLOSE, OPENDIR, READDIR, STAT, LSTAT, MKDIR, RMDIR, REMOVE, RENAME, SYMLINK, READLINK, REALPATH, SETSTAT, statvfs/posix-rename/hardlink/unknown extended), incl. failing opens, never-issued handles and (one flavour) handles of the wrong kind; recorded interactively against os-backed Server (absolute paths / working directory + relative paths) and RequestServer with counting in-memory handlers, allocator on and off; option dimensions — os-backed: ReadOnly() (every modifying request, also one made by a mutation, must be refused with PERMISSION_DENIED and the tree stay as it was) x WithDebug x {absolute, working directory, working directory <tree>/home/u + relative paths} x allocator; request server: {default, WithStartDirectory(\"/\") + relative, WithStartDirectory(\"/home/u\") + absolute, + relative paths} x allocator x {all optional interfaces, handler objects without Close / TransferError, handlers without OpenFileWriter / LstatFileLister / PosixRenameFileCmder / StatVFSFileCmder, neither}; quick: four members of that product (rotating with the seed) on the field session and every third generated session, thorough: the whole product (24 os + 32 rs members) on rotating shares of the sessions, mutated with the sampled density; ReadOnly() configurations also record a \"read-only\" session (every modifying request kind, OPEN with the combinations of write / create / truncate / append / excl / read) and get ALL boundary values for every OPEN's pflags; reference runs of one session on configurations that differ only in path style / start directory / allocator / debug writer are compared reply by reply (type and status code). Mutations of the recorded stream, one per case: cut at byte k then EOF (quick: every frame boundary, boundary+-1 and PRNG offsets; thorough: every k), every frame's length field := 0,1,n-1,n+1,2^31-1,2^32-1, every frame's type byte := sample incl. 0,2,21,99,101-105,199,201,255 and other valid types (thorough: all 0..255), every string-length field (the data length of a WRITE included) := 0,n-1,n+1,n+1000,2^32-1 and, for the last string of a frame (thorough: every string), n/2 — the bytes left where they are —, every frame's length field also := n+(length of the next packet) so that the frame swallows the whole next packet (thorough: also n+4 and the next two packets), 1 and 5 (thorough: 1,3,4,5,8,64,4096) bytes appended INSIDE every frame, whole-field mutations (every integer field the judge finds in a request: frame length, id, version, string lengths, READ/WRITE offset and length, pflags, attribute flags, size, uid, gid, permissions, times, extended count := 0,1,2^31-1,2^31,2^32-16..2^32-1 and for 64-bit fields also 2^32,2^63-1,2^63,2^64-16..2^64-1; string lengths 0/1 also with the string cut to fit and attribute flags also with the block zero-padded to fit, so that the request is dispatched with the extreme value; quick: PRNG choice of 1 value per field (3 in the dedicated session that exercises read/write/read-write/directory handles and full attribute blocks), but ALL values for the offsets and lengths of that session's READs and WRITEs; thorough: all values), garbage appended, the same garbage packets (zero / huge / cut length words, unknown type, RMDIR and EXTENDED with only an id, STAT whose string outruns its frame, PRNG bytes) inserted INSIDE the session in front of a PRNG-chosen frame (quick: 1 position per packet, thorough: 3) so that the rest of the valid session follows the malformed packet, crafted raw frames (F3/short-attribute witnesses), and the same for path-only sessions sent pipelined. TRANSPORT dimension, for both servers: every case runs either on one connection object whose Close ends both directions (net.Pipe-like) or on two independent pipes (struct{io.Reader; io.WriteCloser}, stdin/stdout-like: the server's Close ends its output only, its input stays readable) — PRNG, one half each; every pipelined case additionally with a bytes.Reader over the WHOLE mutated stream as input and a separate sink as output. On every transport the state oracle is the same: the served tree / handler call log after Serve returned equal the reference run cut just before the malformed packet, whatever well-formed requests the stream still holds behind it (histogram behind-the-malformed-packet/<transport>/<end class>/…); when they differ, the stream cut right behind the malformed packet is run too, to tell a malformed packet that was acted upon from a server that kept executing what followed it (<kind>/requests-behind-malformed-executed/<end class>). EFFECT oracles besides the reply oracles: around every WRITE, SETSTAT and FSETSTAT of every run (reference runs too) the file behind the handle / at the path is looked at before and after (os-backed: an OK'd WRITE leaves the old content with exactly `length` bytes — the bytes of the data string — at `offset`; an OK'd SETSTAT / FSETSTAT changed exactly the attributes its flags select, to the block's values) resp. the arguments the handler object / the Setstat handler recorded are compared with the request's fields (request server); and whenever a dispatched frame carries bytes after the last field of its request, the whole stream is run a second time with every request re-encoded without such bytes: same replies, same final tree / handler log. Each case runs on a fresh server in a child process; a case is non-trivial when the stream differs from the reference stream; distinct by (server config, session, mutation)"
 	base, err := ssMkBase(ssBaseRnd())
 	if err != nil {
 		r.Fail(lib.Failure{Kind: "tie", Key: "tmpdir", What: err.Error()})
@@ -402,9 +412,45 @@ func checkC07(c *lib.Ctx) {
 
 	// ---- phase 2: mutations ----
 	jobs = nil
+	// the transport dimension (ssMut.Tr): every case is run either on one connection object whose Close ends
+	// both directions or on two independent pipes whose read side survives the server's Close (PRNG, one half
+	// each, so that every mutation kind meets every frame on both); every pipelined case is run a second time
+	// with a bytes.Reader over the whole stream as the server's input and a separate sink as its output
 	addMut := func(ri *refInfo, m ssMut) {
 		mm := m
+		if mm.Tr == "" && c.Rand.Intn(2) == 1 {
+			mm.Tr = "split"
+		}
 		jobs = append(jobs, &ssPJob{Kind: "c07", Cfg: ri.job.Cfg, Prog: ri.job.Prog, PID: ri.job.PID, Mut: &mm})
+		if m.Pipe && m.Tr == "" {
+			mb := m
+			mb.Tr = "buf"
+			jobs = append(jobs, &ssPJob{Kind: "c07", Cfg: ri.job.Cfg, Prog: ri.job.Prog, PID: ri.job.PID, Mut: &mb})
+		}
+	}
+	// packets no server may act upon, as raw bytes: appended to every session, and inserted INSIDE it
+	garbage := func() []string {
+		g := []string{"00000000", "ffffffff", "00", "000000", "7fffffff", "0000000563000000", "0000000163", "000000050f00000007", "00000005c800000007",
+			hex.EncodeToString(wire.Req(wire.Stat, 9, wire.B{}.U32(1000).Raw([]byte("abc"))))}
+		rb := make([]byte, 16)
+		c.Rand.Read(rb)
+		return append(g, hex.EncodeToString(rb))
+	}
+	// … inside the session: in front of PRNG-chosen frames behind INIT (quick: one position per packet,
+	// thorough: three), so that the well-formed requests of the rest of the session FOLLOW the malformed packet
+	addInside := func(ri *refInfo, nFrames int, g []string, thorough bool) {
+		if nFrames < 2 {
+			return
+		}
+		n := 1
+		if thorough {
+			n = 3
+		}
+		for _, h := range g {
+			for x := 0; x < n; x++ {
+				addMut(ri, ssMut{Kind: "raw", Frame: 1 + c.Rand.Intn(nFrames-1), Hex: h})
+			}
+		}
 	}
 	typeSample := []uint32{0, 2, 21, 99, 101, 102, 103, 104, 105, 199, 201, 255}
 	for idx, ri := range refs {
@@ -498,6 +544,7 @@ func checkC07(c *lib.Ctx) {
 					}
 				}
 			}
+			addInside(ri, len(L), garbage(), thorough)
 			continue
 		}
 		modes := []bool{false}
@@ -611,14 +658,11 @@ func checkC07(c *lib.Ctx) {
 			}
 			// garbage after the session
 			if !pipe {
-				g := []string{"00000000", "ffffffff", "00", "000000", "7fffffff", "0000000563000000", "0000000163", "000000050f00000007", "00000005c800000007",
-					hex.EncodeToString(wire.Req(wire.Stat, 9, wire.B{}.U32(1000).Raw([]byte("abc"))))}
-				rb := make([]byte, 16)
-				c.Rand.Read(rb)
-				g = append(g, hex.EncodeToString(rb))
+				g := garbage()
 				for _, h := range g {
 					addMut(ri, ssMut{Kind: "garbage", Hex: h})
 				}
+				addInside(ri, len(L), g, thorough)
 			}
 		}
 	}
@@ -630,6 +674,9 @@ func checkC07(c *lib.Ctx) {
 		mk := j.Mut.Kind
 		if j.Mut.Pipe {
 			mk += "+pipelined"
+		}
+		if mk == "raw" && j.Mut.Frame < len(j.Prog) {
+			mk += "+inside-session"
 		}
 		if mk == "field" {
 			r.Hist("field/" + j.Mut.Name)
